@@ -3,7 +3,6 @@ package c07
 
 import (
 	"encoding/json"
-	"errors"
 	"fmt"
 	"strings"
 	"sync"
@@ -46,6 +45,11 @@ type Case struct {
 	// Zone: "" = fixed zone named "z" with offset Off; "name:<n>" = fixed zone named <n> with offset Off;
 	// "tz:<IANA name>" = a time-zone database location (embedded time/tzdata), Off ignored.
 	Zone string `json:"zone,omitempty"`
+	// Route: how the date values of the case come into being: 0 New, 1 UnmarshalBinary of the seven-byte form, 2 FromTime of a
+	// UTC time, 3 the text parser (UnmarshalText; four-digit years, otherwise as 1), 4 New(...).Add(0, 0, 0), 5 json.Unmarshal
+	// (as 3), 6 FromTime of a time in a zone 14 hours ahead. Where a value comes from must not matter to what it does. In pair cases
+	// the route applies to A; B always comes from New.
+	Route int `json:"constructed_via,omitempty"`
 }
 
 var tzCache sync.Map
@@ -71,6 +75,39 @@ func location(c Case) *time.Location {
 
 func mk(c Case, w *vkit.W, v YMD) (date.Date, bool) {
 	d := date.New(int(v.Y), date.Month(v.M), v.D)
+	route := c.Route
+	if (route == 3 || route == 5) && (v.Y < 0 || v.Y > 9999) {
+		route = 1
+	}
+	if (route == 2 || route == 6) && (v.Y < -200000000 || v.Y > 200000000) {
+		route = 1
+	}
+	if route == 1 && (v.Y < -999999999 || v.Y > 999999999) {
+		route = 0
+	}
+	var err error
+	switch route {
+	case 1:
+		u := uint32(int32(v.Y))
+		d = date.Date{}
+		err = d.UnmarshalBinary([]byte{1, byte(u >> 24), byte(u >> 16), byte(u >> 8), byte(u), byte(v.M), byte(v.D)})
+	case 2:
+		d = date.FromTime(time.Date(int(v.Y), time.Month(v.M), v.D, 23, 59, 59, 999999999, time.UTC))
+	case 3:
+		d = date.Date{}
+		err = d.UnmarshalText([]byte(ref.DateText(v.Y, v.M, v.D, v.D%2 == 0)))
+	case 4:
+		d = d.Add(0, 0, 0)
+	case 5:
+		d = date.Date{}
+		err = json.Unmarshal([]byte(`"`+ref.DateText(v.Y, v.M, v.D, false)+`"`), &d)
+	case 6:
+		d = date.FromTime(time.Date(int(v.Y), time.Month(v.M), v.D, 0, 0, 0, 0, time.FixedZone("ahead", 14*3600)))
+	}
+	if err != nil {
+		w.Fail(c, "constructor", fmt.Sprintf("construction route %d of %v failed: %v", route, v, err))
+		return d, false
+	}
 	y, m, dd := d.Date()
 	if int64(y) != v.Y || int(m) != v.M || dd != v.D || d.Year() != y || d.Month() != m || d.Day() != dd {
 		w.Fail(c, "constructor", fmt.Sprintf("New(%d,%d,%d) has components %d-%d-%d (Year/Month/Day: %d-%d-%d)", v.Y, v.M, v.D, y, int(m), dd, d.Year(), int(d.Month()), d.Day()))
@@ -97,7 +134,9 @@ func judge(c Case, w *vkit.W) {
 	switch c.Kind {
 	case "pair":
 		a, ok1 := mk(c, w, c.A)
-		b, ok2 := mk(c, w, c.B)
+		cb := c
+		cb.Route = 0 // B always comes from New: values of different provenance meet
+		b, ok2 := mk(cb, w, c.B)
 		if !ok1 || !ok2 {
 			return
 		}
@@ -167,13 +206,6 @@ func judge(c Case, w *vkit.W) {
 		if err := s.Scan(t); err != nil || !s.Equal(a) {
 			w.Fail(c, "scan", fmt.Sprintf("Scan(%v) -> %v, %v", t, s, err))
 		}
-		keep := a
-		for _, src := range []any{"2020-01-01", []byte("2020-01-01"), nil, 5, int64(5), &t, 1.5, true} {
-			if err := a.Scan(src); !errors.Is(err, date.ErrInvalidType) || !a.Equal(keep) {
-				w.Fail(c, "scan-non-time", fmt.Sprintf("Scan(%T) = %v (receiver %v); want wrapped ErrInvalidType and an unchanged receiver", src, err, a))
-				a = keep
-			}
-		}
 	case "fromtime":
 		t := time.Unix(c.Sec, c.Nsec).In(location(c))
 		if t.IsZero() {
@@ -242,6 +274,9 @@ func crosses(a, b YMD) bool { return a.M != b.M || a.Y != b.Y }
 func TestCheck(t *testing.T) {
 	r := vkit.Start("C07")
 	defer r.Finish(t)
+	if r.ReplayCold() {
+		return
+	}
 	if r.Replay != "" {
 		var c Case
 		if err := r.LoadReplay(&c); err != nil {
@@ -251,7 +286,7 @@ func TestCheck(t *testing.T) {
 		return
 	}
 	r.Rule("Oracle: independent day ordinals (Hinnant's civil-from-days, self-tested against package time). Pair cases: exactly one of Before/Equal/After in ordinal order and mirrored; Sub and DaysBetween equal the ordinal difference within time.Duration's range; IsZero iff 0001-01-01. " +
-		"Add: floor-normalise months into years, then day arithmetic on ordinals. AddDuration: ordinal + floor(duration / 24h). Time(): midnight UTC with Unix() = ordinal x 86400; Value(); Scan(time) and Scan(non-time). FromTime: civil date of floor((sec + zone offset) / 86400), zero instants skipped. " +
+		"Add: floor-normalise months into years, then day arithmetic on ordinals. AddDuration: ordinal + floor(duration / 24h). Time(): midnight UTC with Unix() = ordinal x 86400; Value(); Scan(time). FromTime: civil date of floor((sec + zone offset) / 86400), zero instants skipped. " +
 		"Non-trivial: pairs/steps that cross a month or year boundary. Distinct by construction (enumerations, grids) or by hash (random, rapid).")
 	r.Regress(func(raw json.RawMessage, w *vkit.W) error {
 		var c Case
@@ -307,6 +342,62 @@ func TestCheck(t *testing.T) {
 		})
 	})
 	r.Exhaustive(fmt.Sprintf("all pairs of the %d-date boundary set", nb))
+
+	// Phase B3: the same relations on values that came into being in other ways than through New.
+	r.Phase("B3: all ordered pairs of a 320-date boundary subset, add/time cases, with the values constructed through UnmarshalBinary, FromTime (UTC and +14:00), UnmarshalText, Add(0,0,0), json.Unmarshal", func() {
+		sub := boundarySet(320)
+		sub = append(sub, YMD{2004, 2, 29}, YMD{2004, 3, 1}, YMD{2004, 12, 31}, YMD{2005, 1, 1}, YMD{2005, 3, 1}, YMD{1, 1, 1}, YMD{1, 1, 2}, YMD{0, 12, 31}, YMD{-1, 3, 1}, YMD{10000, 3, 1}, YMD{123456789, 2, 28})
+		ns := int64(len(sub))
+		for route := 1; route <= 6; route++ {
+			route := route
+			r.Parallel(ns*ns, ns, func(w *vkit.W, lo, hi int64) {
+				for k := lo; k < hi; k++ {
+					i, j := k/ns, k%ns
+					if i > j {
+						continue
+					}
+					c := Case{Kind: "pair", A: sub[i], B: sub[j], Route: route}
+					judge(c, w)
+					w.Eval(true)
+					if i == j {
+						for _, c2 := range []Case{{Kind: "time", A: sub[i], Route: route}, {Kind: "add", A: sub[i], Months: 1, Route: route}, {Kind: "add", A: sub[i], Years: -1, Days: 366, Route: route}, {Kind: "adddur", A: sub[i], Dur: int64(36 * time.Hour), Route: route}} {
+							judge(c2, w)
+							w.Eval(true)
+						}
+					}
+				}
+			})
+		}
+	})
+
+	// Phase B4: every day of a few years, constructed through each route, against itself and its neighbours constructed through New.
+	r.Phase("B4: every day of the years -1..1, 1899-1901, 1999-2005, 9998-9999 constructed through each route, paired with the same day, the next day and the same day of the next year", func() {
+		var days []YMD
+		for _, y := range []int64{-1, 0, 1, 1899, 1900, 1901, 1999, 2000, 2001, 2002, 2003, 2004, 2005, 9998, 9999} {
+			for m := 1; m <= 12; m++ {
+				for d := 1; d <= ref.DaysIn(y, m); d++ {
+					days = append(days, YMD{y, m, d})
+				}
+			}
+		}
+		r.Parallel(int64(len(days)), 64, func(w *vkit.W, lo, hi int64) {
+			for i := lo; i < hi; i++ {
+				a := days[i]
+				next := civil(a.ord() + 1)
+				sameNextYear := YMD{a.Y + 1, a.M, a.D}
+				if a.M == 2 && a.D == 29 {
+					sameNextYear.D = 28
+				}
+				for route := 1; route <= 6; route++ {
+					for _, b := range []YMD{a, next, sameNextYear} {
+						c := Case{Kind: "pair", A: a, B: b, Route: route}
+						judge(c, w)
+						w.Eval(true)
+					}
+				}
+			}
+		})
+	})
 
 	// Phase B2: years far outside 0000-9999 (negative, beyond 9999, near the int32 limits) against each other and ordinary dates.
 	r.Phase("B2: all ordered pairs of dates in extreme years (-2147483647 .. 2147483646) and ordinary years", func() {
@@ -488,6 +579,8 @@ func TestCheck(t *testing.T) {
 		})
 	})
 	r.Sampled()
+
+	r.ColdPhase(coldFirst)
 
 	r.Phase("F: rapid mixed cases", func() {
 		ymd := rapid.Custom(func(rt *rapid.T) YMD {
